@@ -400,3 +400,30 @@ Proof.
   eexists. split; [reflexivity|].
   rewrite (fold_add_connection_nodup calls []); cbn [app]; [exact C3|]. rewrite C3. exact NDc.
 Qed.
+
+(** without a block-name mapping *)
+Lemma apply_map_nil n : apply_map [] n = n.
+Proof. reflexivity. Qed.
+Lemma map_apply_map_nil ns : map (apply_map []) ns = ns.
+Proof. induction ns as [|a ns IH]; [reflexivity|]. cbn [map]. rewrite IH. reflexivity. Qed.
+Lemma map_pair_nil cnl : map (map_pair []) cnl = cnl.
+Proof. induction cnl as [|[a b] cnl IH]; [reflexivity|]. cbn [map]. rewrite IH. reflexivity. Qed.
+
+Theorem fromgeo_blocks_names_nomap g names :
+  wf g -> block_name_list g = Ok names -> NoDup names ->
+  exists bl, fromgeo_blocks g [] = Ok bl /\ map bname bl = names.
+Proof.
+  intros W Hn ND. rewrite <- (map_apply_map_nil names) in ND.
+  destruct (fromgeo_blocks_names g [] names W Hn ND) as [bl [F E]].
+  exists bl. split; [exact F|]. rewrite E. apply map_apply_map_nil.
+Qed.
+Theorem fromgeo_conns_names_nomap g names :
+  wf g -> block_name_list g = Ok names -> NoDup names ->
+  exists cnl, block_connection_name_list g = Ok cnl /\
+    (NoDup cnl -> exists cs, fromgeo_conns g [] = Ok cs /\ map ckey cs = cnl).
+Proof.
+  intros W Hn ND. rewrite <- (map_apply_map_nil names) in ND.
+  destruct (fromgeo_conns_names g [] names W Hn ND) as [cnl [C H]].
+  exists cnl. split; [exact C|]. intro NDc. rewrite <- (map_pair_nil cnl) in NDc.
+  destruct (H NDc) as [cs [F E]]. exists cs. split; [exact F|]. rewrite E. apply map_pair_nil.
+Qed.
